@@ -355,7 +355,9 @@ func runClient(c tp.TestApiClient, sc script, mkCtx func(deadline bool) (context
 	}
 	switch sc.Shape {
 	case "unary":
-		var h, t metadata.MD
+		// the caller's metadata variables are used for call after call: whatever an earlier call left in them, this
+		// call's header and trailer REPLACE it - also when this call has none
+		h, t := metadata.Pairs("x-stale", "header of an earlier call"), metadata.Pairs("x-stale", "trailer of an earlier call")
 		if sc.Client != "normal" && sc.Quirk != "busy-handler" {
 			stop(0)
 		}
